@@ -360,3 +360,27 @@ def _():
         out += (f"/-- guard of the upsampling step of `{funcname}` -/\n"
                 f"def {prefix}_upsample_on (upsample : Int) : Bool := {c}\n")
     return out
+
+
+@fragment("Blocks", "full_buffers")
+def _():
+    fn = find_def(BC, "process_frame_full")
+    cb = find_assign(fn, "crop_bufs")
+    fresh = isinstance(cb.value, ast.Call) and ast.unparse(cb.value.func) in ("np.zeros", "zeros")
+    calls = find_calls(fn, "log_scale")
+    out_kw = ""
+    if len(calls) == 1:
+        for kw in calls[0].keywords:
+            if kw.arg == "out":
+                out_kw = ast.unparse(kw.value)
+        arg0 = ast.unparse(calls[0].args[0]) if calls[0].args else ""
+    else:
+        raise Missing("log_scale call in process_frame_full")
+    spec = find_assign(fn, "spec_part")
+    return (
+        "/-- `process_frame_full` allocates its crop buffers itself (`np.zeros`) on every call -/\n"
+        f"def full_crop_bufs_fresh : Bool := {lean_bool(fresh)}\n"
+        "/-- `log_scale(<arg>, out=<out>)` and the array that is Fourier transformed -/\n"
+        f"def full_log_arg : String := {lean_str(arg0)}\n"
+        f"def full_log_out : String := {lean_str(out_kw)}\n"
+        f"def full_fft_input : String := {lean_str(ast.unparse(spec.value))}\n")
